@@ -142,7 +142,16 @@ class C09(CheckBase):
         self.fs.put('/sim/alt.gsb', data2)
         env.ntv2reader.open = self.fs.open
         self.fs.install_os_seam(env.ntv2reader)
-        env.grid_factory = lambda which='std': env.ntv2reader.read_ntv2_file('/sim/%s.gsb' % which)
+        env.grid_share = None        # dict during a run whose callers hold ONE grid object per file (read once, used by all)
+
+        def grid_factory(which='std'):
+            if env.grid_share is not None:
+                g = env.grid_share.get(which)
+                if g is None:
+                    g = env.grid_share[which] = env.ntv2reader.read_ntv2_file('/sim/%s.gsb' % which)
+                return g
+            return env.ntv2reader.read_ntv2_file('/sim/%s.gsb' % which)
+        env.grid_factory = grid_factory
         # write barrier
         self.barrier_hits = []
         self.barrier_on = False
@@ -398,6 +407,13 @@ class C09(CheckBase):
                 'pair_sweep': True, 'granularity': 'line'}
 
     def generate(self, rng, i, tier):
+        t = self._generate(rng, i, tier)
+        # half of the runs: every caller uses the same grid object per NTv2 file (read once, shared by all
+        # threads - the usual way to use a grid); otherwise each call reads its own
+        t['share_grid'] = rng.random() < 0.5
+        return t
+
+    def _generate(self, rng, i, tier):
         K = len(self.kinds)
         if i < K:
             return self._same_kind_trace(rng, i)
@@ -594,6 +610,7 @@ class C09(CheckBase):
 
     def _execute(self, trace):
         env = self.env
+        env.grid_share = {} if trace.get('share_grid') else None
         log = EventLog()
         T = trace['threads']
         ops = trace['ops']
